@@ -77,6 +77,20 @@ theorem goodRun_fault (v : Variant) (r : Res Resp) (s : St) (l : List Ev) (f : O
     goodRun v (r, s.setFault f, l) = goodRun v (r, s, l) := by
   cases r <;> rfl
 
+/-- the predicate reads the mount only to admit an un-leased secret; a run that is good for the modern mount (which
+admits none) is good for every mount -/
+theorem goodRun_of_modern (fl : Flow) (req : Req) (npol : Nat) (typ : Typ) (orphan : Bool) (mnt : Mount)
+    (r : Res Resp × St × List Ev) (h : goodRun ⟨fl, req, npol, typ, orphan, .modern⟩ r = true) :
+    goodRun ⟨fl, req, npol, typ, orphan, mnt⟩ r = true := by
+  obtain ⟨r1, s, l⟩ := r
+  cases r1 with
+  | ok resp =>
+    cases resp
+    case okSecretUnleased => simp [goodRun, goodFault, kvMount, Mount.modern] at h
+    all_goals exact h
+  | err => exact h
+  | crash => exact h
+
 /-- the clean state of a request that has so far only read, with any fault countdown -/
 def St.clean (f : Option Nat) : St := (St.init none none).setFault f
 
@@ -99,32 +113,6 @@ theorem guardReads_good (v : Variant) (l : List KC) (onFail : Resp) (k : M Resp)
   · simp only [bind_apply, h, pure_apply]
     rw [goodRun_log v _ _ _ [], goodRun_fault]; exact hfail
 
-theorem secretAfterCheck_good (fl : Flow) (req : Req) (npol : Nat) (typ : Typ) (orphan : Bool) (f : Option Nat) :
-    goodRun ⟨fl, req, npol, typ, orphan⟩ (secretAfterCheck ⟨fl, req, npol, typ, orphan⟩ (St.clean f)) = true := by
-  rcases f with _ | _ | _ | n <;> cases req <;> rfl
-
-theorem secretFlow_good (v : Variant) (k : Option Nat) : goodRun v (secretFlow v (St.init k none)) = true := by
-  obtain ⟨fl, req, npol, typ, orphan⟩ := v
-  apply guardReads_good
-  · rfl
-  · intro f'; rw [init_setFault]; exact secretAfterCheck_good ..
-
-/-- the state after `tokenStore.create` wrote the new token's records -/
-def St.withToken (par : Bool) (f : Option Nat) : St :=
-  { St.clean f with store := { Store.empty with tokAcc := true, tokPar := par, tokId := true } }
-
-theorem finishRegisterAuth_good (v : Variant) (par : Bool) (f : Option Nat) :
-    goodRun v (finishRegisterAuth (St.withToken par f)) = true := by
-  obtain ⟨fl, req, npol, typ, orphan⟩ := v
-  rcases f with _ | _ | n <;> cases par <;> cases typ <;> rfl
-
-theorem loginFlow_good (v : Variant) (k : Option Nat) : goodRun v (loginFlow v (St.init k none)) = true := by
-  obtain ⟨fl, req, npol, typ, orphan⟩ := v
-  cases typ
-  case batch => rfl
-  all_goals
-    rcases k with _ | _ | _ | _ | n <;> rfl
-
 theorem goodRun_bind (v : Variant) (m : M α) (k : α → M Resp) (s : St) :
     goodRun v ((m >>= k) s) = match m s with
       | (.ok a, s', _) => goodRun v (k a s')
@@ -138,12 +126,57 @@ theorem goodRun_bind (v : Variant) (m : M α) (k : α → M Resp) (s : St) :
   · rfl
   · rfl
 
+/-- the lease decision exempts KV mounts only -/
+theorem registerLease_false_kv (m : Mount) (h : registerLease m = false) : kvMount m = true := by
+  obtain ⟨typ, pk, on, lp, pt⟩ := m
+  cases typ <;> simp_all [registerLease, kvMount]
+
+theorem secretLeased_good (fl : Flow) (req : Req) (npol : Nat) (typ : Typ) (orphan : Bool) (mnt : Mount) (f : Option Nat) :
+    goodRun ⟨fl, req, npol, typ, orphan, mnt⟩
+      (secretLeased ⟨fl, req, npol, typ, orphan, mnt⟩ { St.clean f with issued := 1 }) = true := by
+  rcases f with _ | _ | _ | n <;> cases req <;> rfl
+
+theorem secretAfterCheck_good (fl : Flow) (req : Req) (npol : Nat) (typ : Typ) (orphan : Bool) (mnt : Mount) (f : Option Nat) :
+    goodRun ⟨fl, req, npol, typ, orphan, mnt⟩ (secretAfterCheck ⟨fl, req, npol, typ, orphan, mnt⟩ (St.clean f)) = true := by
+  unfold secretAfterCheck
+  rw [goodRun_bind]
+  show goodRun _ ((if registerLease mnt = true then secretLeased _ else pure Resp.okSecretUnleased) { St.clean f with issued := 1 }) = true
+  by_cases hr : registerLease mnt = true
+  · rw [if_pos hr]; exact secretLeased_good ..
+  · rw [if_neg hr]
+    have hk := registerLease_false_kv mnt (by simpa using hr)
+    show goodFault _ _ = true
+    simp only [goodFault, hk]
+    rfl
+
+theorem secretFlow_good (v : Variant) (k : Option Nat) : goodRun v (secretFlow v (St.init k none)) = true := by
+  obtain ⟨fl, req, npol, typ, orphan, mnt⟩ := v
+  apply guardReads_good
+  · rfl
+  · intro f'; rw [init_setFault]; exact secretAfterCheck_good ..
+
+/-- the state after `tokenStore.create` wrote the new token's records -/
+def St.withToken (par : Bool) (f : Option Nat) : St :=
+  { St.clean f with store := { Store.empty with tokAcc := true, tokPar := par, tokId := true } }
+
+theorem finishRegisterAuth_good (v : Variant) (par : Bool) (f : Option Nat) :
+    goodRun v (finishRegisterAuth (St.withToken par f)) = true := by
+  obtain ⟨fl, req, npol, typ, orphan, mnt⟩ := v
+  rcases f with _ | _ | n <;> cases par <;> cases typ <;> rfl
+
+theorem loginFlow_good (v : Variant) (k : Option Nat) : goodRun v (loginFlow v (St.init k none)) = true := by
+  obtain ⟨fl, req, npol, typ, orphan, mnt⟩ := v
+  cases typ
+  case batch => rfl
+  all_goals
+    rcases k with _ | _ | _ | _ | n <;> rfl
+
 theorem createAfterPolicies_good (v : Variant) (f : Option Nat) :
     goodRun v (createAfterPolicies v (if v.typ = .batch then St.clean f else St.withToken (!v.orphan) f)) = true := by
   unfold createAfterPolicies
   by_cases hb : v.typ = .batch
   · simp only [hb, if_true]
-    obtain ⟨fl, req, npol, typ, orphan⟩ := v
+    obtain ⟨fl, req, npol, typ, orphan, mnt⟩ := v
     simp only at hb; subst hb; rfl
   · simp only [hb, if_false]
     exact finishRegisterAuth_good ..
@@ -151,10 +184,11 @@ theorem createAfterPolicies_good (v : Variant) (f : Option Nat) :
 /-- the error response of the policy look-up after `tokenStore.create`: the token entry stays, without lease -/
 theorem errResp_good (v : Variant) (f : Option Nat) :
     goodRun v (.ok .errResp, (if v.typ = .batch then St.clean f else St.withToken (!v.orphan) f), []) = true := by
-  obtain ⟨fl, req, npol, typ, orphan⟩ := v
+  obtain ⟨fl, req, npol, typ, orphan, mnt⟩ := v
   have h1 : ∀ par, St.withToken par f = (St.withToken par none).setFault f := fun _ => rfl
   have h2 : St.clean f = (St.clean none).setFault f := rfl
-  have hn : ∀ r, goodRun ⟨fl, req, npol, typ, orphan⟩ r = goodRun ⟨fl, req, 0, typ, orphan⟩ r := fun _ => rfl
+  have hn : ∀ r, goodRun ⟨fl, req, npol, typ, orphan, .modern⟩ r = goodRun ⟨fl, req, 0, typ, orphan, .modern⟩ r := fun _ => rfl
+  apply goodRun_of_modern
   cases typ <;> cases orphan <;> simp only [if_true, if_false, reduceCtorEq] <;>
     first
       | (rw [h2, goodRun_fault, hn]; cases fl <;> cases req <;> decide)
@@ -166,7 +200,7 @@ theorem createRecords_cases (v : Variant) (f : Option Nat) :
         (.ok (some ()), (if v.typ = .batch then St.clean f' else St.withToken (!v.orphan) f'), lg)) ∨
     (∃ s' lg, attempt (createRecords v) (St.clean f) = (.ok none, s', lg) ∧
         goodRun v (.ok .errInvalid, s', []) = true) := by
-  obtain ⟨fl, req, npol, typ, orphan⟩ := v
+  obtain ⟨fl, req, npol, typ, orphan, mnt⟩ := v
   cases typ <;> cases orphan
   case batch.false => exact Or.inl ⟨f, [], rfl⟩
   case batch.true => exact Or.inl ⟨f, [], rfl⟩
@@ -218,27 +252,28 @@ theorem createAfterParent_good (v : Variant) (f : Option Nat) :
     simp only [clean_setFault]
     by_cases hr : v.req = .root
     · simp only [hr, true_and, if_true]
-      obtain ⟨fl, req, npol, typ, orphan⟩ := v
+      obtain ⟨fl, req, npol, typ, orphan, mnt⟩ := v
       rfl
     · simp only [hr, false_and, if_false]
       exact createAfterSudo_good v none
 
 theorem createFlow_good (v : Variant) (k : Option Nat) : goodRun v (createFlow v (St.init k none)) = true := by
   apply guardReads_good
-  · obtain ⟨fl, req, npol, typ, orphan⟩ := v; rfl
+  · obtain ⟨fl, req, npol, typ, orphan, mnt⟩ := v; rfl
   · intro f'
     rw [init_setFault]
     apply guardReads_good
-    · obtain ⟨fl, req, npol, typ, orphan⟩ := v; rfl
+    · obtain ⟨fl, req, npol, typ, orphan, mnt⟩ := v; rfl
     · intro f''
       rw [clean_setFault]
       exact createAfterParent_good v f''
 
 /-- the response-wrapped secret after the token check, under any fault countdown -/
-theorem wrapAfterCheck_good (req : Req) (npol : Nat) (typ : Typ) (orphan : Bool) (f : Option Nat) :
-    goodRun ⟨.wrap, req, npol, typ, orphan⟩ (wrapAfterCheck ⟨.wrap, req, npol, typ, orphan⟩ (St.clean f)) = true := by
-  have hn : ∀ r, goodRun ⟨.wrap, req, npol, typ, orphan⟩ r = goodRun ⟨.wrap, req, 0, typ, false⟩ r := fun _ => rfl
-  have hw : wrapAfterCheck ⟨.wrap, req, npol, typ, orphan⟩ = wrapAfterCheck ⟨.wrap, req, 0, typ, false⟩ := rfl
+theorem wrapAfterCheck_good (req : Req) (npol : Nat) (typ : Typ) (orphan : Bool) (mnt : Mount) (f : Option Nat) :
+    goodRun ⟨.wrap, req, npol, typ, orphan, mnt⟩ (wrapAfterCheck ⟨.wrap, req, npol, typ, orphan, mnt⟩ (St.clean f)) = true := by
+  have hn : ∀ r, goodRun ⟨.wrap, req, npol, typ, orphan, .modern⟩ r = goodRun ⟨.wrap, req, 0, typ, false, .modern⟩ r := fun _ => rfl
+  have hw : wrapAfterCheck ⟨.wrap, req, npol, typ, orphan, mnt⟩ = wrapAfterCheck ⟨.wrap, req, 0, typ, false, .modern⟩ := rfl
+  apply goodRun_of_modern
   rw [hn, hw]
   rcases f with _ | _ | _ | _ | _ | _ | _ | _ | n
   iterate 8 (cases req <;> cases typ <;> decide +kernel)
@@ -246,7 +281,7 @@ theorem wrapAfterCheck_good (req : Req) (npol : Nat) (typ : Typ) (orphan : Bool)
 
 theorem wrapFlow_good (v : Variant) (hv : v.flow = .wrap) (k : Option Nat) :
     goodRun v (wrapFlow v (St.init k none)) = true := by
-  obtain ⟨fl, req, npol, typ, orphan⟩ := v
+  obtain ⟨fl, req, npol, typ, orphan, mnt⟩ := v
   simp only at hv
   subst hv
   apply guardReads_good
@@ -308,11 +343,19 @@ theorem finishRegisterAuth_crashOK (par : Bool) (c : Option Nat) :
 theorem secretFlow_crashOK (v : Variant) (c : Option Nat) : crashOK (secretFlow v (St.init none c)) = true := by
   unfold secretFlow
   rw [guardReads_crashOK _ _ _ _ rfl]
-  obtain ⟨fl, req, npol, typ, orphan⟩ := v
-  rcases c with _ | _ | _ | _ | n <;> cases req <;> rfl
+  obtain ⟨fl, req, npol, typ, orphan, mnt⟩ := v
+  unfold secretAfterCheck
+  rw [crashOK_bind]
+  show crashOK ((if registerLease mnt = true then secretLeased _ else pure Resp.okSecretUnleased)
+    { St.init none c with issued := 1 }) = true
+  by_cases hr : registerLease mnt = true
+  · rw [if_pos hr]
+    rcases c with _ | _ | _ | _ | n <;> cases req <;> rfl
+  · rw [if_neg hr]
+    rcases c with _ | _ | n <;> rfl
 
 theorem loginFlow_crashOK (v : Variant) (c : Option Nat) : crashOK (loginFlow v (St.init none c)) = true := by
-  have hv : loginFlow v = loginFlow ⟨.login, .anon, 0, v.typ, false⟩ := rfl
+  have hv : loginFlow v = loginFlow ⟨.login, .anon, 0, v.typ, false, .modern⟩ := rfl
   rw [hv]
   cases v.typ
   case batch => rfl
@@ -329,7 +372,7 @@ theorem createRecords_crash_cases (v : Variant) (c : Option Nat) :
     (∃ c' lg, attempt (createRecords v) (St.init none c) =
         (.ok (some ()), (if v.typ = .batch then St.init none c' else St.withTokenC (!v.orphan) c'), lg)) ∨
     (∃ s' lg, attempt (createRecords v) (St.init none c) = (.crash, s', lg) ∧ crashOKSt s' = true) := by
-  obtain ⟨fl, req, npol, typ, orphan⟩ := v
+  obtain ⟨fl, req, npol, typ, orphan, mnt⟩ := v
   cases typ <;> cases orphan
   case batch.false => exact Or.inl ⟨c, [], rfl⟩
   case batch.true => exact Or.inl ⟨c, [], rfl⟩
@@ -386,8 +429,8 @@ theorem createFlow_crashOK (v : Variant) (c : Option Nat) : crashOK (createFlow 
 theorem wrapFlow_crashOK (v : Variant) (c : Option Nat) : crashOK (wrapFlow v (St.init none c)) = true := by
   unfold wrapFlow
   rw [guardReads_crashOK _ _ _ _ rfl]
-  obtain ⟨fl, req, npol, typ, orphan⟩ := v
-  have hw : wrapAfterCheck ⟨fl, req, npol, typ, orphan⟩ = wrapAfterCheck ⟨.wrap, req, 0, .na, false⟩ := rfl
+  obtain ⟨fl, req, npol, typ, orphan, mnt⟩ := v
+  have hw : wrapAfterCheck ⟨fl, req, npol, typ, orphan, mnt⟩ = wrapAfterCheck ⟨.wrap, req, 0, .na, false, .modern⟩ := rfl
   rw [hw]
   rcases c with _ | _ | _ | _ | _ | _ | _ | _ | _ | n
   iterate 9 (cases req <;> decide +kernel)
